@@ -23,8 +23,8 @@ type c08App struct {
 	Local  []string `json:"local"`
 }
 type c08Flag struct {
-	ID    int  `json:"id"`
-	Has   bool `json:"has"`
+	ID    int    `json:"id"`
+	Has   bool   `json:"has"`
 	Fails string `json:"fails"`
 }
 type c08Case struct {
